@@ -5,8 +5,9 @@
     pkg/slayers/path/epic/epic.go).  Definitions only.
 
     [processEPIC]: isPenultimate / isLast are read from the embedded SCION path BEFORE it is
-    processed; the embedded path goes through [process()] (= [Router.process_scion]); unless
-    that forwards, its outcome is the outcome.  At the penultimate and at the last hop a
+    processed (plus: the hop after the current one is the penultimate one and [process()] did
+    cross over to it); the embedded path goes through [process()] (= [Router.process_scion]);
+    unless that forwards, its outcome is the outcome.  At the penultimate and at the last hop a
     forwarded packet must in addition be fresh ([VerifyTimestamp] with the timestamp of info
     field 0 and the packet timestamp offset) and carry the right PHVF resp. LHVF
     ([VerifyHVF] keyed with the FULL 16-byte MAC of the hop field verified last); otherwise
@@ -65,6 +66,19 @@ Definition mac_input (src_type info_ts pkt_ts pkt_ctr src_ia : N) (src_raw : lis
   body ++ repeat 0 (N.to_nat (pad_len (N.of_nat (length body)))).
 
 Definition is_penultimate (p : pkt) : bool := p_curr_hf p + 2 =? num_hops p.
+
+(** a router that crosses over into the last segment at that segment's first hop field handles
+    the hop field after the current one too; if that one is the penultimate hop field of the
+    path, this router has to validate the PHVF (fix in /repo: before it, isPenultimate was
+    only read from the pointer of the received packet and such a packet went unchecked) *)
+Definition xover_to_penultimate (c : cfg) (p : pkt) : bool :=
+  (p_curr_hf p + 3 =? num_hops p) && eff_xover p && negb (p_dst_ia p =? c_ia c).
+(** does processEPIC apply the EPIC checks to a packet it forwards? *)
+Definition epic_checked (c : cfg) (p : pkt) : bool :=
+  is_penultimate p || xover_to_penultimate c p || is_last_hop p.
+(** index of the hop field [verifyCurrentMAC] looks at last *)
+Definition verified_index (c : cfg) (p : pkt) : N :=
+  if eff_xover p && negb (p_dst_ia p =? c_ia c) then p_curr_hf p + 1 else p_curr_hf p.
 
 (** the SCMP pointers that [process()] takes from currentHopPointer / currentInfoPointer *)
 Definition path_pointer_code (code : N) : bool := (CodeInvalidPath <=? code) && (code <=? CodeInvalidSegmentChange).
@@ -129,7 +143,7 @@ Definition epic_checks (ep : epic) (p out : pkt) : epic_verdict :=
 Definition process_epic (ep : epic) (p : pkt) : result :=
   match process_scion macq c now ing p with
   | Forward e out d =>
-    if is_penultimate p || is_last_hop p then
+    if epic_checked c p then
       match epic_checks ep p out with
       | EvOk => Forward e out d
       | EvDiscard => Discard
@@ -167,7 +181,7 @@ Definition c13_ok (fullq : N -> N -> N -> N -> N -> option (list N))
     (emacq : list N -> list N -> option (list N)) (c : cfg) (now : N) (ing : ingress)
     (ep : epic) (p : pkt) (impl : result) : bool :=
   let scion := process_scion (macq fullq) c now ing p in
-  if is_penultimate p || is_last_hop p then
+  if epic_checked c p then
     match impl with
     | Forward e out d =>
       (* accepted: the embedded path was accepted with this very outcome, the packet is
